@@ -98,7 +98,9 @@ func dgStoreAndClock(r *rand.Rand, signer *KeyPair) ([]*KeyPair, time.Time, []st
 	return store, now, labels
 }
 
-func dgVerifiable(o *SignOpts, store []*KeyPair, now time.Time) bool { return signatureVerifies(o, store, now) }
+func dgVerifiable(o *SignOpts, store []*KeyPair, now time.Time) bool {
+	return signatureVerifies(o, store, now)
+}
 
 // ---------- small free-form documents ----------
 
